@@ -6,7 +6,7 @@ const input = JSON.parse(fs.readFileSync(process.argv[2], 'utf8'));
 const out = [];
 for (const code of input) {
   let s = false, m = false;
-  try { new vm.Script(code); s = true; } catch (e) {}
+  try { new vm.Script(code, { displayErrors: false }); s = true; } catch (e) {}
   try { new vm.SourceTextModule(code); m = true; } catch (e) {}
   out.push([s, m]);
 }
